@@ -555,7 +555,7 @@ func (h *uCryptoSetup) GetHandshakeOpener() (LongHeaderOpener, error) {
 }
 
 func (h *uCryptoSetup) Get1RTTOpener() (ShortHeaderOpener, error) {
-	if h.zeroRTTOpener != nil && time.Since(h.handshakeCompleteTime) > 3*h.rttStats.PTO(true) {
+	if h.zeroRTTOpener != nil && !h.handshakeCompleteTime.IsZero() && time.Since(h.handshakeCompleteTime) > 3*h.rttStats.PTO(true) {
 		h.zeroRTTOpener = nil
 		h.logger.Debugf("Dropping 0-RTT keys.")
 	}
